@@ -378,7 +378,11 @@ fn judge(case: &Value, close: &str, side: &str, out: &[Outcome], rep: &mut Probl
                 case,
                 0,
             ),
-            "stranded" => rep.problem(
+            "stranded" => {
+              if wd >= WATCHDOG {
+                  FULL_HANGS.fetch_add(1, std::sync::atomic::Ordering::Relaxed);
+              }
+              rep.problem(
                 "hang",
                 json!({"site": "quic-wakers", "what": "stranded", "kind": o.kind, "close": close, "dev": dev}),
                 format!(
@@ -388,7 +392,8 @@ fn judge(case: &Value, close: &str, side: &str, out: &[Outcome], rep: &mut Probl
                 ),
                 case,
                 0,
-            ),
+              )
+            }
             "panic" => rep.problem(
                 "panic",
                 json!({"site": "quic-wakers", "what": "panic", "kind": o.kind, "dev": dev}),
@@ -430,8 +435,21 @@ fn class_of(kind: &str) -> &'static str {
     }
 }
 
+/// Futures found stranded after the FULL watchdog so far. Once a few hangs are established the
+/// verdict no longer depends on patience: later cases use a short watchdog (a mutated tree with a
+/// thousand stranded futures must not take hours).
+static FULL_HANGS: std::sync::atomic::AtomicUsize = std::sync::atomic::AtomicUsize::new(0);
+const SHORT_WATCHDOG: Duration = Duration::from_secs(3);
+
 fn watchdog(case: &Value) -> Duration {
-    case["watchdog_ms"].as_u64().map(Duration::from_millis).unwrap_or(WATCHDOG)
+    if let Some(ms) = case["watchdog_ms"].as_u64() {
+        return Duration::from_millis(ms);
+    }
+    if FULL_HANGS.load(std::sync::atomic::Ordering::Relaxed) >= 3 {
+        SHORT_WATCHDOG
+    } else {
+        WATCHDOG
+    }
 }
 
 async fn run_conn_case(shared: &Env, case: &Value, rep: &mut Problems) -> Result<Value, String> {
